@@ -4,12 +4,13 @@
      Block::push            501 write.fetch_add   502 slot write   503 read.fetch_or
      Block::is_quiesced     504 read.load (len)   505 write.load
      Block::data            506 read.load (len) ; the callback f(data) runs inside this step
-     Block::next_len        507 next.load         508 read.load of the next block
+     Block::next_has_completed_writes (next_len before fix 1a8142c)
+                            507 next.load         508 read.load of the next block
      AtomicBucket::push     510 tail.load   511 CAS null->fresh   512 CAS tail->fresh
                             (513 next.store of the fresh block: only BEFORE the fix, [fxa = false];
                              since the fix the link is written on the still private block and is
                              part of step 512)
-     is_empty               520 tail.load   521 read.load
+     is_empty               520 tail.load   521 read.load (then 507/508 only if the head shows nothing)
      data_with              530 tail.load   531 spin (one iteration of the wait loop)   532 next.load
      clear_with             540 tail.load   541 CAS tail->null   542 spin   543 next.load
    The block size is the parameter [B]; [fxa]/[fxc] select the code after (true) / before (false)
